@@ -45,13 +45,13 @@ def natlist(l):
     return '[' + '; '.join(str(int(v)) for v in l) + ']%nat'
 
 
-def rcase_coq(order, odd, window, cn, res):
+def rcase_coq(order, odd, window, cn, res, unit=1.0):
     with warnings.catch_warnings(), np.errstate(all='ignore'):
         warnings.simplefilter('ignore')
         cs, harm, ib = res.cossin(), res.harmonics(), res.Ibeta(window)
-    return ('{| rc_order := %d; rc_odd := %s; rc_window := %d; rc_pi := %s; rc_r := %s; rc_cn := %s; '
+    return ('{| rc_order := %d; rc_odd := %s; rc_window := %d; rc_pi := %s; rc_unit := %s; rc_r := %s; rc_cn := %s; '
             'rc_orders := %s; rc_sinpowers := %s; rc_cossin := %s; rc_harm := %s; rc_Ibeta := %s |}'
-            % (order, vlib.bool_lit(odd), window, vlib.q_lit(float(np.pi)),
+            % (order, vlib.bool_lit(odd), window, vlib.q_lit(float(np.pi)), vlib.q_lit(float(unit)),
                vlib.list_lit([vlib.q_lit(float(v)) for v in res.r]), vlib.img_q(np.asarray(cn, float).tolist()),
                natlist(res.orders), natlist(res.sinpowers), vlib.img_q(cs.tolist()), vlib.img_q(harm.tolist()),
                vlib.img_q(ib.tolist())))
@@ -96,9 +96,15 @@ def correspondence(ctx, rng, hits):
                     P0 = results_obj(order, odd, cn).harmonics()[0]
             if np.any((np.abs(P0) < 1e-3) & (np.abs(cn).sum(axis=0) > 0)):
                 cn[0] += 7.0
+            # overall scale of the coefficients: a power of two of either sign over ~240 decades
+            # (all binary64 operations then scale exactly; beta = Pn/P0 must not depend on it)
+            unit = 1.0
+            if rng.random() < 0.75:
+                unit = float((-1.0) ** int(rng.integers(2)) * 2.0 ** int(rng.integers(-400, 401)))
+            cn = cn * unit
             try:
-                cases.append(rcase_coq(order, odd, window, cn, results_obj(order, odd, cn)))
-                meta.append((order, odd, 'random', window))
+                cases.append(rcase_coq(order, odd, window, cn, results_obj(order, odd, cn), unit))
+                meta.append((order, odd, 'random*2^%d' % int(np.round(np.log2(abs(unit)))), window))
             except Exception as e:     # noqa
                 hits.append(exc_hit(order, odd, cn, e))
     shard = 40
@@ -121,7 +127,7 @@ def correspondence(ctx, rng, hits):
     if bad:     # which component disagrees
         rc, out = vlib.coq_eval('C15_parts', CASE_HEADER + 'Eval vm_compute in (rcheck_parts %s).\n' % bad[0][1])
         r = vlib.parse_eval_lists(out)
-        bad = [(b[0], 'components [orders; sinpowers; cossin; harmonics; Ibeta] agree: %s' % (r[0] if r else out[-200:]))
+        bad = [(b[0], 'components [orders; sinpowers; unit; cossin; harmonics; Ibeta] agree: %s' % (r[0] if r else out[-200:]))
                for b in bad]
     return len(cases), n_ok, bad, errors
 
